@@ -3,8 +3,8 @@ package main
 // C12 — poryswitch; C13 — constants; C14 — movement and mart lists.
 
 import (
-	"go/token"
 	"fmt"
+	"go/token"
 	"go/types"
 	"sort"
 	"strings"
